@@ -3,6 +3,7 @@ package c_mtproto
 import (
 	"context"
 	"net"
+	"os"
 	"sync"
 	"testing/synctest"
 	"time"
@@ -18,6 +19,7 @@ import (
 // fixture runs a real mtproto.Conn (restored key, no key exchange) against a
 // harness peer over net.Pipe inside a synctest bubble.
 type fixture struct {
+	gate    *gatedConn
 	peer    *pbt.Peer
 	conn    *mtproto.Conn
 	cancel  context.CancelFunc
@@ -62,7 +64,9 @@ func startConn(t fataler, key [256]byte, rnd *pbt.Stream, opts mtproto.Options, 
 		opts.Salt = 0x1111
 	}
 	dial := func(ctx context.Context) (transport.Conn, error) {
-		c1, c2 := net.Pipe()
+		p1, c2 := net.Pipe()
+		f.gate = &gatedConn{Conn: p1}
+		var c1 net.Conn = f.gate
 		f.peer = pbt.NewPeer(c2, key)
 		if onPeer != nil {
 			onPeer(f.peer)
@@ -116,4 +120,65 @@ func drawKey(s *pbt.Stream) [256]byte {
 	var k [256]byte
 	copy(k[:], s.Bytes(256))
 	return k
+}
+
+// gatedConn is the client's side of the pipe. While stalled, a Write blocks
+// without anything being transferred and fails with the deadline error once the
+// write deadline passes (a full socket buffer on a link that does not drain):
+// the failed write leaves the stream intact.
+type gatedConn struct {
+	net.Conn
+	mu      sync.Mutex
+	stalled chan struct{}
+	wdl     time.Time
+}
+
+func (g *gatedConn) SetWriteDeadline(t time.Time) error {
+	g.mu.Lock()
+	g.wdl = t
+	g.mu.Unlock()
+	return g.Conn.SetWriteDeadline(t)
+}
+
+func (g *gatedConn) SetDeadline(t time.Time) error {
+	g.mu.Lock()
+	g.wdl = t
+	g.mu.Unlock()
+	return g.Conn.SetDeadline(t)
+}
+
+func (g *gatedConn) Write(p []byte) (int, error) {
+	g.mu.Lock()
+	st, dl := g.stalled, g.wdl
+	g.mu.Unlock()
+	if st != nil {
+		var timer <-chan time.Time
+		if !dl.IsZero() {
+			timer = time.After(time.Until(dl))
+		}
+		select {
+		case <-st:
+		case <-timer:
+			return 0, os.ErrDeadlineExceeded
+		}
+	}
+	return g.Conn.Write(p)
+}
+
+// StallWrites / ResumeWrites switch the stall.
+func (g *gatedConn) StallWrites() {
+	g.mu.Lock()
+	if g.stalled == nil {
+		g.stalled = make(chan struct{})
+	}
+	g.mu.Unlock()
+}
+
+func (g *gatedConn) ResumeWrites() {
+	g.mu.Lock()
+	if g.stalled != nil {
+		close(g.stalled)
+		g.stalled = nil
+	}
+	g.mu.Unlock()
 }
